@@ -25,8 +25,9 @@ HISTORY_DEPENDENCE_IS_VIOLATION = True
 RULE = ("Each evaluation is one program: 5-40 public aotools calls issued by 1-3 simulated callers (interleaving decided by the seed) whose array "
         "arguments are drawn from a shared heap of 12-20 arrays (float64/float32/int64/complex128; C, Fortran, strided views, frames that are views "
         "of a stack, write-protected), with repeats of earlier calls, heap re-allocation steps and ambient RNG reseeds in between; per call the "
-        "plan may poison numpy.empty. distinct_nontrivial counts distinct tuples (function, parameter, array category, layout, dtype, 'array was "
-        "already used by an earlier call of this program') over all array arguments passed, counted only when the array had been used before.")
+        "plan may poison numpy.empty, and the caller may overwrite the returned arrays in place afterwards. distinct_nontrivial counts distinct tuples "
+        "(function, parameter, array category, layout, dtype, write-protected, function that used this array last) over all array arguments passed, "
+        "counted only when the array had already been used by an earlier call of the program.")
 
 COMPONENTS = {
     "real": ["every registered public aotools callable (see coverage.registry)", "numpy / scipy / numba"],
@@ -102,11 +103,13 @@ def gen_call(rng, heap, z, by_cat):
             cat = heap[a[p0]]["cat"]
             if cat in common:
                 a[p1] = a[p0]
-    return {"f": e["name"], "a": a, "s": e["scalars"](rng, z), "poison": rng.chance(0.3), "amb": rng.randrange(2 ** 31)}
+    return {"f": e["name"], "a": a, "s": e["scalars"](rng, z), "poison": rng.chance(0.3), "amb": rng.randrange(2 ** 31),
+            "scribble": rng.chance(0.35)}
 
 
 def gen_plan(rng, tier, index=0):
-    z = {"N": rng.choice([4, 6, 8]), "M": rng.choice([6, 8, 11]), "K": rng.choice([2, 3])}
+    z = {"N": rng.choice([4, 6, 8] + ([10, 12, 16] if tier == "thorough" else [])), "M": rng.choice([6, 8, 11] + ([17, 30] if tier == "thorough" else [])),
+         "K": rng.choice([2, 3] + ([5] if tier == "thorough" else []))}
     heap = gen_heap(rng.sub("heap"), z)
     by_cat = {}
     for i, h in enumerate(heap):
@@ -117,10 +120,15 @@ def gen_plan(rng, tier, index=0):
         r = rng.sub("caller", c)
         prog = []
         focus = r.choice(registry.ENTRIES) if r.chance(0.5) else None      # a caller that hammers one function
-        for _ in range(r.randint(3, 16)):
+        for _ in range(r.randint(3, 16 if tier != "thorough" else 40)):
             x = r.random()
-            if prog and x < 0.25:
+            if prog and x < 0.20:
                 prog.append(dict(r.choice(prog)))                                 # repeat an earlier call of this caller
+            elif prog and x < 0.30:
+                # near-duplicate: same function, same arrays, scalars drawn again (caches keyed on too few parameters)
+                st = dict(r.choice(prog))
+                st["s"] = registry.BY_NAME[st["f"]]["scalars"](r, z)
+                prog.append(st)
             elif focus is not None and x < 0.55:
                 st = gen_call(r, heap, z, by_cat)
                 tries = 0
@@ -141,11 +149,14 @@ def gen_plan(rng, tier, index=0):
         steps.append(st)
         idx[c] += 1
         x = r.random()
-        if x < 0.06:
+        if x < 0.04:
             steps.append({"op": "realloc", "h": r.randrange(len(heap)), "fill": r.randrange(10 ** 6)})
-        elif x < 0.12:
+        elif x < 0.09:
+            # the owner rewrites the SAME array object with new data (same id(), shape, dtype)
+            steps.append({"op": "refill", "h": r.randrange(len(heap)), "fill": r.randrange(10 ** 6)})
+        elif x < 0.14:
             steps.append({"op": "noise", "noise": {"k": r.choice(["np_seed", "np_draw", "py_seed", "gc", "clock"]), "v": r.randint(1, 1000)}})
-        elif x < 0.20 and steps:
+        elif x < 0.22 and steps:
             # another caller repeats something an earlier caller did (hidden-state probe across callers)
             prev = [s for s in steps if "f" in s]
             if prev:
@@ -437,6 +448,7 @@ def execute(plan, keep_log=False):
         heap.append(build_array(sp, z, heap))
     snaps = [snap(a) for a in heap]
     used = [False] * len(heap)
+    last_user = [None] * len(heap)   # which function touched this array last (programs mixing functions on shared arrays)
     seen = {}            # repeat-call memory: key -> (result key, step)
     poison = Poison()
     poison.install()
@@ -526,6 +538,31 @@ def execute(plan, keep_log=False):
                 res.count("fault.heap_array_reallocated")
                 log.add(si, "realloc", i)
                 continue
+            if op == "refill":
+                i = st["h"] % len(heap)
+                if specs[i]["layout"] == "frame_of":
+                    log.add(si, "refill-skipped", i)
+                    continue
+                a = heap[i]
+                new = _content(specs[i]["cat"], z, st["fill"]).astype(a.dtype)
+                w = a.flags.writeable
+                try:
+                    if not w:
+                        a.setflags(write=True)
+                    a[...] = new
+                    if not w:
+                        a.setflags(write=False)
+                except Exception:
+                    log.add(si, "refill-failed", i)
+                    continue
+                specs[i] = dict(specs[i], fill=st["fill"])
+                for j in range(len(heap)):
+                    snaps[j] = snap(heap[j])
+                    if j == i or specs[j].get("of") == i:
+                        versions[j] += 1
+                res.count("fault.heap_array_refilled_in_place")
+                log.add(si, "refill", i)
+                continue
             e = registry.BY_NAME.get(st["f"])
             if e is None:
                 log.add(si, "unknown-function", st["f"])
@@ -545,7 +582,7 @@ def execute(plan, keep_log=False):
             for p, i in idx.items():
                 sp = specs[i]
                 if used[i]:
-                    res.sig("arg", fname, p, sp["cat"], sp["layout"], sp["dtype"], bool(sp.get("ro")))
+                    res.sig("arg", fname, p, sp["cat"], sp["layout"], sp["dtype"], bool(sp.get("ro")), last_user[i])
                 if sp.get("ro"):
                     res.count("fault.write_protected_argument")
                 if sp["layout"] in ("strided", "F", "frame_of"):
@@ -569,6 +606,7 @@ def execute(plan, keep_log=False):
             check_heap(si, fname, set(idx.values()), label_of)
             for i in idx.values():
                 used[i] = True
+                last_user[i] = fname
             # ---- copy-call: fresh copies of the arguments (new identities, writable)
             C = copies(A)
             csn = dict((p, snap(a)) for p, a in C.items())
@@ -598,6 +636,23 @@ def execute(plan, keep_log=False):
                                     "(poisoned uninitialised memory: %s)" % (fname, S, si, seen[key][1], bool(st.get("poison"))), si)
                 else:
                     seen[key] = (rk, si)
+            # ---- the result belongs to the caller, who may overwrite it in place (never when it aliases an argument)
+            if st.get("scribble") and r1[0] == "ok":
+                for leaf in r1[1]:
+                    if leaf[0] != "a":
+                        continue
+                    arr = leaf[4]
+                    try:
+                        if arr.ndim == 0 or not arr.flags.writeable or arr.dtype.kind not in "fciu":
+                            continue
+                        if any(numpy.may_share_memory(arr, hp) for hp in heap):
+                            res.count("probe.result_aliases_an_argument")
+                            continue
+                        arr[...] = 777
+                        res.count("fault.caller_overwrote_result_in_place")
+                    except Exception:
+                        pass
+                check_heap(si, fname, set(idx.values()), label_of)
         res.sim_time = env.advanced
     poison.uninstall()
     res.digest = log.digest()
